@@ -187,7 +187,20 @@ def gen_data(rng):
         g.add((s, p, o))
     for _ in range(rng.randint(0, 2)):
         g.add((rng.choice(S.CLASSES), RDFS.subClassOf, rng.choice(S.CLASSES)))
+    if rng.random() < 0.3:
+        # a class with several direct superclasses, each with ancestors of its own (and sometimes a way back)
+        x = rng.choice(S.CLASSES)
+        ups = rng.sample(UPPER, rng.randint(2, 3))
+        for u in ups:
+            g.add((x, RDFS.subClassOf, u))
+            g.add((u, RDFS.subClassOf, TOPS[UPPER.index(u)]))
+        if rng.random() < 0.3:
+            g.add((TOPS[UPPER.index(ups[0])], RDFS.subClassOf, x))
     return g, nodes
+
+
+UPPER = [EX.K0, EX.K1, EX.K2]
+TOPS = [EX.T0, EX.T1, EX.T2]
 
 
 def gen_leaf(rng, is_prop, nodes):
@@ -198,7 +211,7 @@ def gen_leaf(rng, is_prop, nodes):
     k = rng.choice(kinds)
     pool = [n for n in nodes if not isinstance(n, BNode)] + LITERALS
     if k == "class":
-        return ("class", rng.sample(S.CLASSES, rng.randint(1, 2)))
+        return ("class", rng.sample(S.CLASSES + (UPPER + TOPS if rng.random() < 0.5 else []) if rng.random() < 0.6 else TOPS, rng.randint(1, 2)))
     if k == "datatype":
         return ("datatype", rng.choice(DATATYPES))
     if k == "nodekind":
